@@ -33,3 +33,7 @@ pub assume_specification<T: Default>[ std::mem::take::<T> ](dest: &mut T) -> (r:
 // Vec<u8>::default() is the empty vector
 pub broadcast axiom fn axiom_default_vec_u8()
     ensures (#[trigger] default_spec::<Vec<u8>>())@ == Seq::<u8>::empty();
+
+// Option::or (ASSUMED, std documentation)
+pub assume_specification<T>[ Option::<T>::or ](a: Option<T>, b: Option<T>) -> (r: Option<T>)
+    ensures r == (if a is Some { a } else { b });
